@@ -12,8 +12,8 @@ RULE = ("one case = (method, dtype, span sign pattern, initial-dt class and sign
         "non-trivial = >=3 rows recorded by a call that returned; distinct by (method,dtype,span,dt class,history)")
 ASSUMPTIONS = ["dt is at least 64 ulp of the largest time in the span (otherwise time cannot advance in that precision)",
                "a run exceeding its logical step budget (20x the expected step count) is a violation of 'ends at the target' (bounded progress)"]
-FLOORS = {"quick": {"calls_checked": 150, "backward_calls": 40, "mixed_sign_calls": 30, "dt_gt_span_calls": 20, "buffer_growth_runs": 2, "reversal_calls": 5, "closing_rejection_calls": 8, "calls_after_tf_change": 15, "noop_calls": 3},
-          "thorough": {"calls_checked": 1500, "backward_calls": 400, "mixed_sign_calls": 300, "dt_gt_span_calls": 120, "buffer_growth_runs": 8, "reversal_calls": 50, "closing_rejection_calls": 8, "calls_after_tf_change": 150, "noop_calls": 30}}
+FLOORS = {"quick": {"calls_checked": 150, "backward_calls": 40, "mixed_sign_calls": 30, "dt_gt_span_calls": 20, "buffer_growth_runs": 2, "reversal_calls": 5, "closing_rejection_calls": 8, "calls_after_tf_change": 15, "noop_calls": 3, "calls_with_a_long_closing_step_far_from_the_origin": 90},
+          "thorough": {"calls_checked": 1500, "backward_calls": 400, "mixed_sign_calls": 300, "dt_gt_span_calls": 120, "buffer_growth_runs": 8, "reversal_calls": 50, "closing_rejection_calls": 8, "calls_after_tf_change": 150, "noop_calls": 30, "calls_with_a_long_closing_step_far_from_the_origin": 150}}
 SPANS = [(0.0, 2.0), (-5.0, 1.0), (-10.0, -5.0), (10.0, 5.0), (1.0, -5.0), (3.0, -3.0), (0.0, -2.0), (-2.0, 0.0),
          (1e6, 1e6 + 1.0), (-1e6, -1e6 - 1.0), (-0.5, 0.25), (7.0, 7.5)]
 QUICK_METHODS = ["RK45CKSolver", "DOPRI45", "RK4Solver", "EulerSolver", "HeunEulerSolver", "RK8713MSolver", "ABAs5o6HSolver",
@@ -51,6 +51,17 @@ def gen_cases(tier, seed):
                 cases.append(dict(kind="span", method=name, dtype=dtype, span=list(span), dt=dts * frac * L, dtfrac=frac,
                                   history=str(rng.choice(hist_all)), pseed=int(rng.integers(1 << 30)), dense=bool(rng.random() < 0.3),
                                   cost=(3 if info["explicit"] else 12) * (3 if frac < 1e-2 else 1)))
+    # a LONG closing step towards a target of much smaller magnitude than the current time, far from the origin: t + (tf - t) then rounds an ulp
+    # away from tf in about half of the cases, and the end-of-span logic must neither chase that ulp backwards nor miss the target
+    for name in names:
+        if not M[name]["explicit"] and tier == "quick" and name not in ("BackwardEuler", "GaussLegendre4"):
+            continue
+        for r in range((12 if M[name]["explicit"] else 3) if tier == "quick" else 30):
+            sg = float(rng.choice([-1, 1]))
+            a_, b_ = sg * float(rng.uniform(1e6, 3e6)), sg * float(rng.uniform(1e5, 9e5))
+            span = [a_, b_] if rng.random() < 0.75 else [b_, a_]
+            cases.append(dict(kind="span", method=name, dtype="float64", span=span, dt=abs(span[1] - span[0]) / float(rng.choice([1.5, 1.5, 2.6])), dtfrac=0.66,
+                              history="single", pseed=int(rng.integers(1 << 30)), dense=bool(rng.random() < 0.3), tau=1e6, cost=3 if M[name]["explicit"] else 12))
     # calls whose closing (clipped) step is rejected and retried (constructed from a reference run on a quiet-then-steep problem)
     for name in [n for n in names if M[n]["adaptive"] and M[n]["order"] <= 8]:
         for d_ in (1, -1):
@@ -116,6 +127,9 @@ def run_case(spec):
         prob = _P
     else:
         base = Manufactured(2, spec["pseed"], direction=d)
+        if spec.get("tau"):
+            from vf.problems import TimeScaled
+            base = TimeScaled(base, spec["tau"])     # the same dynamics on a time axis stretched by tau (times ~1e6, steps ~1e5..1e6)
         prob = Clocked(base)
     y0 = prob.y0(t0, dt)
     y0_copy = y0.copy()
@@ -203,6 +217,8 @@ def run_case(spec):
             rec.nontrivial = True
         if dd < 0:
             rec.bump("backward_calls")
+        if spec.get("tau"):
+            rec.bump("calls_with_a_long_closing_step_far_from_the_origin")
         if (here < 0) != (tgt_eff < 0) or here == 0 or tgt_eff == 0:
             rec.bump("mixed_sign_calls")
         if ci == 0 and abs(spec["dt"]) > L:
